@@ -14,7 +14,11 @@ Binding: every scenario is realised as real OpenMDAO components and executed (pr
   total     model.approx_totals(method, step, form, step_calc) on ivc -> c1 -> c2 (c2 explicit, implicit with its own
             solve_nonlinear, or implicit inside a Newton-solved subgroup), compute_totals
   semi      the same chain inside a subgroup with group.approx_totals, totals of the whole model through it
-One Problem is built per structure and declaration and driven through all points of the structure in sequence.
+  colored total: model.declare_coloring + model.approx_totals (coloring of semi-totals is rejected by OpenMDAO: counted)
+One Problem is built per structure (partial/implicit/semi: one component or subgroup per declaration inside it; total:
+one Problem per declaration, four of the fifteen fd declarations per structure in rotation, cs for every third) and
+driven through all points of the structure in sequence.  When a Jacobian differs from the spec at a later point of the
+sequence, a fresh Problem is built at that point to tell state carried over between points from a wrong scheme.
 
 Comparison rule (per Jacobian entry, spec value q, effective step s of the column, A = the polynomial evaluated with
 absolute coefficients at |x| + s, propagated through the chain: a bound for every intermediate of the evaluation):
@@ -79,6 +83,14 @@ def _approx_kw(decl, totals=False):
     if not totals:
         kw['minimum_step'] = decl['ms']
     return kw
+
+
+# The sparsity behind a dynamic coloring is sampled by OpenMDAO at randomly perturbed points around the point of the first
+# linearization (relative 1e-9, absolute 1e-9 at zeros).  Where a derivative vanishes at that point (x = 0 for 3 x^2) the
+# tiny perturbation can drown in round-off (central difference, step 2^-20: seen in 1 of 150 trials) and the entry is
+# then taken for a structural zero.  That is a property of sparsity sampling, not of the approximation schemes, so the
+# colored realisations are used on the families whose first point has no zero coordinate (sparse: point 0; chains), and
+# numpy's generator is seeded per task so that a run is reproducible.
 
 
 def _color_kw(decl):
@@ -381,9 +393,20 @@ def _majorant(st, xf, smax):
     return A2, G2
 
 
-def _compare(st, pt, key, Jobs, chain):
-    """-> list of (r, i, observed, expected, tol) for entries outside the rule"""
+def _one_step_jac(pt, key, j):
+    """the quotient every column would have with the effective step of column j (the signature of the
+    colored-relative-step finding: one step for all columns of a colored sweep); the quotient is affine in the step:
+    q(s) = central + (q(s_i) - central) * s / s_i"""
     e = pt['jacs'][key]
+    c = pt['jacs'][('central', key[1])]
+    s0 = e['st'][j]
+    return {'J': [[c['J'][r][i] + (e['J'][r][i] - c['J'][r][i]) * s0 / e['st'][i] for i in range(len(e['st']))]
+                  for r in range(len(e['J']))], 'st': [s0] * len(e['st'])}
+
+
+def _compare(st, pt, key, Jobs, chain, e=None):
+    """-> list of (r, i, observed, expected, tol) for entries outside the rule"""
+    e = e or pt['jacs'][key]
     bad = []
     n = len(pt['xf'])
     if key == CS_KEY:
@@ -412,7 +435,7 @@ def _decl(st, key):
     return {'form': key[0], 'sc': key[1], 'h': st['h'], 'ms': st['ms']}
 
 
-def _run_build(task, keys, alloc, name, points, first_only=False):
+def _run_build(task, keys, alloc, name, points):
     """build one Problem for `keys`, drive it through `points`; returns (records, counters)"""
     kind, colored, st = task['kind'], task['colored'], task['st']
     chain = bool(st['c2'])
@@ -452,7 +475,7 @@ def _run_build(task, keys, alloc, name, points, first_only=False):
                 np = classes()['np']
                 diffs = {n: [np.frombuffer(a).tolist(), np.frombuffer(c).tolist()]
                          for n, a, c in zip(('inputs', 'outputs', 'residuals'), s0, s1) if a != c}
-                recs.append({'cls': 'side-effect', 'key': keys[0] if len(keys) == 1 else ('batch', keys[0][0]), 'pt': pt['pt'],
+                recs.append({'cls': 'side-effect', 'key': keys[0] if len(keys) == 1 else ('*', 'any'), 'pt': pt['pt'],
                              'seq': seq, 'obs': diffs, 'exp': 'vectors unchanged', 'which': which})
             for ki, k in enumerate(keys):
                 J = b.jac(ki)
@@ -462,8 +485,12 @@ def _run_build(task, keys, alloc, name, points, first_only=False):
                 bad = _compare(st, pt, k, J, chain)
                 cnt['jacobians'] += 1
                 if bad:
-                    recs.append({'cls': 'jacobian', 'key': k, 'pt': pt['pt'], 'seq': seq, 'obs': J.tolist(),
-                                 'exp': pt['jacs'][k]['J'], 'bad': bad[:4], 'ncolors': ncol})
+                    rec = {'cls': 'jacobian', 'key': k, 'pt': pt['pt'], 'seq': seq, 'obs': J.tolist(),
+                           'exp': pt['jacs'][k]['J'], 'bad': bad[:4], 'ncolors': ncol}
+                    if colored and k[1] in SCS[1:]:
+                        rec['first_step'] = any(not _compare(st, pt, k, J, chain, e=_one_step_jac(pt, k, j))
+                                                for j in range(len(pt['xf'])))
+                    recs.append(rec)
                 elif task.get('want_obs'):
                     recs.append({'cls': 'ok', 'key': k, 'pt': pt['pt'], 'seq': seq, 'obs': J.tolist(), 'ncolors': ncol})
         except Exception as ex:
@@ -471,8 +498,6 @@ def _run_build(task, keys, alloc, name, points, first_only=False):
             for k in keys:
                 recs.append({'cls': 'raised', 'key': k, 'pt': pt['pt'], 'seq': seq,
                              'obs': '%s: %s | %s' % (type(ex).__name__, ex, traceback.format_exc().splitlines()[-3:])})
-            break
-        if first_only:
             break
     try:
         b.p.cleanup()
@@ -487,6 +512,7 @@ def _task_worker(tasks):
     for task in tasks:
         t0 = time.time()
         kind, st, points = task['kind'], task['st'], task['points']
+        classes()['np'].random.seed((task.get('seed', 0) * 1000003 + int(task['id'])) % 2 ** 32)
         recs = []
         cnt = collections.Counter()
         tid = task['id']
@@ -510,11 +536,12 @@ def _task_worker(tasks):
                 pt = [q for q in points if q['pt'] == ptno]
                 r2, _ = _run_build(task, ks, alloc, 'c12_%s_%d_f%d' % (tid, bi, ptno), pt)
                 badk = set(x['key'] for x in r2 if x['cls'] in ('jacobian', 'raised', 'setup-error'))
+                fs = set(x['key'] for x in r2 if x['cls'] == 'jacobian' and x.get('first_step'))
                 for rec in r:
                     if rec['cls'] == 'jacobian' and rec['pt'] == ptno:
                         rec['fresh_ok'] = rec['key'] not in badk
+                        rec['fresh_first_step'] = rec['key'] in fs
             recs.extend(r)
-        # colored against uncolored, entry by entry
         out.append({'id': tid, 'recs': recs, 'cnt': dict(cnt), 'wall': time.time() - t0})
     return out
 
@@ -621,14 +648,13 @@ def _reference_check(groups):
 
 
 def make_tasks(groups, quick, seed):
-    import random
-    rnd = random.Random(seed)
     tasks = []
     allk = FD_KEYS + [CS_KEY]
     for gi, (k, g) in enumerate(groups.items()):
         st = g['st']
         base = {'st': st, 'points': g['points'], 'keys': allk, 'alloc': bool(gi % 2), 'gkey': k}
-        wo = st['colorable']        # observed Jacobians are returned for the colored / uncolored comparison
+        color = st['colorable'] and st['fam'] != 'dense'
+        wo = color                  # observed Jacobians are returned for the colored / uncolored comparison
         absk = [kk for kk in allk if kk[1] in ('abs', 'none')]
         colk = absk + [('forward', sc) for sc in SCS[1:]]     # coloring: relative steps with the forward form only
         if st['fam'] in ('dense', 'sparse'):
@@ -637,7 +663,7 @@ def make_tasks(groups, quick, seed):
             imp = len(lay) >= 2 and lay[-1] == len(st['c1'])
             if imp:
                 tasks.append(dict(base, kind='implicit', colored=False, want_obs=wo))
-            if st['colorable']:
+            if color:
                 # declare_partials(step_calc, minimum_step) followed by declare_coloring(method, form, step)
                 tasks.append(dict(base, kind='partial', colored=True, want_obs=True, keys=colk))
                 # declare_coloring alone
@@ -647,17 +673,18 @@ def make_tasks(groups, quick, seed):
         else:
             # one Problem per declaration: every structure gets cs (every third), and four of the fifteen fd declarations
             tk = [FD_KEYS[(gi * 4 + j) % 15] for j in range(4)] + ([CS_KEY] if gi % 3 == 0 else [])
-            if st['colorable']:
+            if color:
                 tk = sorted(set(tk + [('forward', 'abs'), ('central', 'abs'), CS_KEY, ('forward', 'rel_element')]))
             tasks.append(dict(base, kind='total', colored=False, keys=tk, want_obs=wo))
             tasks.append(dict(base, kind='semi', colored=False))
-            if st['colorable']:
+            if color:
                 tasks.append(dict(base, kind='total', colored=True, want_obs=True,
                                   keys=[('forward', 'abs'), ('central', 'abs'), CS_KEY, ('forward', 'rel_element')]))
                 # OpenMDAO rejects coloring of semi-totals: counted, not judged
                 tasks.append(dict(base, kind='semi', colored=True, keys=[('forward', 'abs'), CS_KEY]))
     for i, t in enumerate(tasks):
         t['id'] = str(i)
+        t['seed'] = seed
     return tasks
 
 
@@ -668,9 +695,11 @@ def classify(task, rec):
     if task['kind'] == 'total' and task['colored'] and rec['seq'] == 0 and \
             all(v == 0 for row in rec['obs'] for v in row):
         return 'colored-total-first-call'
-    if rec.get('fresh_ok') and rec['key'][1] in ('rel', 'rel_avg', 'rel_element', 'rel_legacy'):
+    if rec.get('fresh_ok') and rec['key'][1] in SCS[1:]:
         return 'stale-relative-step'
-    if task['colored'] and rec['key'][1] in ('rel', 'rel_avg', 'rel_element', 'rel_legacy'):
+    # every column approximated with the effective step of one and the same column (also when a fresh Problem at this
+    # point shows exactly that while this one additionally carries a stale step)
+    if task['colored'] and rec['key'][1] in SCS[1:] and (rec.get('first_step') or rec.get('fresh_first_step')):
         return 'colored-relative-step'
     return 'jacobian'
 
@@ -777,8 +806,9 @@ def report(ctx, groups, tasks, byid, exports, nref, quick):
             'jacobian': 'approximated Jacobian differs from the exact quotient the scheme defines',
             'stale-relative-step': 'relative step not recomputed at the new point: the Jacobian differs from the scheme\'s '
                                    'quotient at this point, a fresh Problem at the same point agrees',
-            'colored-relative-step': 'colored approximation with a relative step_calc differs from the scheme\'s quotient '
-                                     '(and from the uncolored approximation)',
+            'colored-relative-step': 'colored approximation with a relative step_calc: every column is approximated with the '
+                                     'effective step of one of them (differs from the scheme\'s quotient and from the '
+                                     'uncolored approximation)',
             'side-effect': 'inputs/outputs/residuals changed by computing the approximation (%s)' % rec.get('which'),
             'colored-differs': 'colored approximation differs from the uncolored approximation (expected = uncolored)',
             'colored-total-first-call': 'the first compute_totals of a model with approx_totals and declare_coloring returns '
